@@ -119,6 +119,23 @@ def create_marker_cache_from_specified_markers(
             log=log,
             min_markers=min_markers)
 
+    # the parents at which a choice is actually made; entries of
+    # marker_lookup for any other key (a parent with a single child,
+    # a parent that was dropped from the taxonomy) are never consulted
+    needed_parents = None
+    if taxonomy_tree is not None:
+        needed_parents = set()
+        for parent in taxonomy_tree.all_parents:
+            if parent is None:
+                parent_key = 'None'
+                children = taxonomy_tree.children(level=None, node=None)
+            else:
+                parent_key = f'{parent[0]}/{parent[1]}'
+                children = taxonomy_tree.children(
+                    level=parent[0], node=parent[1])
+            if len(children) > 1:
+                needed_parents.add(parent_key)
+
     query_gene_set = set(query_gene_names)
     reference_gene_set = set(reference_gene_names)
     final_marker_lookup = dict()
@@ -132,7 +149,9 @@ def create_marker_cache_from_specified_markers(
         marker_set = set(marker_lookup[parent_node])
         these_markers = list(marker_set.intersection(query_gene_set))
 
-        if len(these_markers) == 0 and len(marker_set) > 0:
+        is_needed = (needed_parents is None or parent_node in needed_parents)
+
+        if len(these_markers) == 0 and len(marker_set) > 0 and is_needed:
             these_markers = list(query_gene_set)
             msg = f"No markers at parent node '{parent_node}' were present "
             msg += "in query set."
